@@ -906,9 +906,11 @@ def validate_compiled(run, tier, jobs=None):
                 t = len(tlc_events)
                 meta[t] = (ident, replay)
                 tlc_events.append(dict({k_: v for k_, v in ev.items() if not k_.startswith("_")}, t=t))
-    if n_checked == 0:
+    if n_checked == 0 and counts["failed_to_compile"] == 0:
         raise MachineryError("artefact level: no compiled operation could be checked (%s)" % counts)
-    if not replaying and (n_buffered == 0 or n_two == 0 or not any(k.startswith("dw/") for k in classes)
+    # vacuity control only when every job compiled: a tree on which corpus networks fail to compile (C13's business) must
+    # give a verdict on what did compile, not a machinery error
+    if not replaying and counts["failed_to_compile"] == 0 and (n_buffered == 0 or n_two == 0 or not any(k.startswith("dw/") for k in classes)
                           or not any(k.startswith("fc/") for k in classes) or not counts["skipped"]
                           or n_standalone_multi == 0):
         raise MachineryError("vacuity: artefact level misses a class (buffered, two cores, depthwise, FC, skipped "
